@@ -302,7 +302,7 @@ func (p *poller) readWriteLoop() {
 										_ = c.closeWithError(err)
 										break
 									}
-									if n < bufLen {
+									if n < bufLen && c.isStream() {
 										break
 									}
 								}
